@@ -4,7 +4,7 @@
 From Coq Require Import ZArith List Lia Bool.
 From Coq Require Import ZifyBool.
 From RTP Require Import Base.Bits Base.Res Base.ListX Base.Bytes Base.Tactics Model.RtpPacket Model.HeaderExtViews Spec.Rfc8285
-  Proofs.ExtLoop.
+  Proofs.ExtLoop Proofs.ExtForm.
 Import ListNotations.
 Open Scope Z_scope.
 
@@ -98,19 +98,28 @@ Proof.
     apply onebyte_find_items; auto. cbn [length]. lia.
 Qed.
 
-Theorem twobyte_view_agrees a b items id : Forall wf_item2 items -> 1 <= id <= 255 ->
-  let buf := 16 :: 0 :: a :: b :: enc_items true items in
+Lemma be16_two_byte ab : 0 <= ab < 16 -> ext_form (be16 16 ab) = profile_two_byte.
+Proof.
+  intros H. unfold be16. change (Z.shiftl 16 8) with 4096. rewrite (lor_add_small 4096 ab 12) by (try reflexivity; lia).
+  apply (ext_form_two ab H).
+Qed.
+
+(* appbits: the low four bits of the two-byte profile, which a receiver ignores *)
+Theorem twobyte_view_agrees ab a b items id : 0 <= ab < 16 -> Forall wf_item2 items -> 1 <= id <= 255 ->
+  let buf := 16 :: ab :: a :: b :: enc_items true items in
   twobyte_unmarshal buf = Ok buf /\
   twobyte_get_ids buf = Ok (map eid (elems items)) /\
   twobyte_get buf id = Ok (lookup (elems items) id).
 Proof.
-  intros Hwf Hid buf. split; [reflexivity|]. split.
+  intros Hab Hwf Hid buf. split.
+  { unfold twobyte_unmarshal, view_profile, buf. rewrite (be16_two_byte ab Hab), Z.eqb_refl. reflexivity. }
+  split.
   - unfold twobyte_get_ids, buf. rewrite !zlen_cons. pose proof (zlen_nonneg (enc_items true items)).
     replace (1 + (1 + (1 + (1 + zlen (enc_items true items)))) <? 4) with false by lia.
-    change (drop 4 (16 :: 0 :: a :: b :: enc_items true items)) with (enc_items true items).
+    change (drop 4 (16 :: ab :: a :: b :: enc_items true items)) with (enc_items true items).
     rewrite twobyte_ids_items by (auto; cbn [length]; lia). reflexivity.
   - unfold twobyte_get, buf.
-    change (drop 4 (16 :: 0 :: a :: b :: enc_items true items)) with (enc_items true items).
+    change (drop 4 (16 :: ab :: a :: b :: enc_items true items)) with (enc_items true items).
     apply twobyte_find_items; auto. cbn [length]. lia.
 Qed.
 
@@ -121,7 +130,7 @@ Proof. intros Hx. unfold get_extension, lookup. rewrite Hx. reflexivity. Qed.
 (* the raw (RFC 3550) view: any block whose profile is neither 0xBEDE nor 0x1000 is kept as the
    byte string handed to Unmarshal, under the single id 0; the RFC 8285 views refuse it *)
 Theorem raw_view p0 p1 rest id : 0 <= p0 < 256 -> 0 <= p1 < 256 ->
-  be16 p0 p1 <> profile_one_byte -> be16 p0 p1 <> profile_two_byte ->
+  be16 p0 p1 <> profile_one_byte -> ext_form (be16 p0 p1) <> profile_two_byte ->
   let buf := p0 :: p1 :: rest in
   raw_unmarshal buf = Ok buf /\ raw_get_ids buf = [0] /\
   raw_get buf id = (if id =? 0 then Some buf else None) /\
@@ -129,14 +138,17 @@ Theorem raw_view p0 p1 rest id : 0 <= p0 < 256 -> 0 <= p1 < 256 ->
 Proof.
   intros H0 H1 Hn1 Hn2 buf. unfold raw_unmarshal, onebyte_unmarshal, twobyte_unmarshal, view_profile, buf.
   replace (be16 p0 p1 =? profile_one_byte) with false by lia.
-  replace (be16 p0 p1 =? profile_two_byte) with false by lia. repeat split.
+  replace (ext_form (be16 p0 p1) =? profile_two_byte) with false by lia. repeat split.
 Qed.
 
 (* and the other way round: an RFC 8285 block is refused by the raw view *)
-Theorem raw_view_refuses_8285 a b rest :
+Theorem raw_view_refuses_8285 ab a b rest : 0 <= ab < 16 ->
   raw_unmarshal (190 :: 222 :: a :: b :: rest) = Err ENotFound /\
-  raw_unmarshal (16 :: 0 :: a :: b :: rest) = Err ENotFound.
-Proof. split; reflexivity. Qed.
+  raw_unmarshal (16 :: ab :: a :: b :: rest) = Err ENotFound.
+Proof.
+  intros Hab. split; [reflexivity|]. unfold raw_unmarshal, view_profile.
+  rewrite (be16_two_byte ab Hab), Z.eqb_refl. apply orb_true_r || (rewrite orb_true_r; reflexivity).
+Qed.
 
 (* every view re-serialises what it holds byte-identically: Marshal is the stored buffer, MarshalTo
    writes exactly those bytes in front of the untouched rest of a sufficient destination and
